@@ -5,7 +5,7 @@ from vlib import caseio, gen, runner
 
 ID = "C18"
 COQ_PREFIXES = ["C18", "C19"]            # C19_ROps.v: the Coq-reals instance of SOps
-COQ_TARGETS = ["C18_Extract.vo", "C18_Proofs.vo"]
+COQ_TARGETS = ["C18_Extract.vo", "C18_Proofs.vo", "C18_Mean.vo"]
 EXTRACTED = "C18_model"
 DRIVER = "drv_C18.ml"
 HARNESS = "h_C18.cpp"
@@ -15,27 +15,43 @@ REQUIRED_THEOREMS = ["C18_exp_unit", "C18_log_exp", "C18_log_exp_error_bound", "
                      "C18_double_cover", "C18_log_norm_le_pi", "C18_sum_unit", "C18_diff_sum", "C18_left_convention",
                      "C18_exp_log_neg", "C18_exp_log_pm", "C18_right_convention_differs",
                      "C18_mean_negation_invariant", "C18_mean_permutation_invariant", "C18_mean_all_equal",
-                     "C18_mean_symmetric_centre_is_eigenvector", "C18_mean_symmetric_gap", "C18_mean_symmetric", "C18_mean_symmetric_partial"]
-RULE = ("cases from one seeded stream: conversions on batches of 0..6 unit quaternions (and, for correspondence only, quaternions of norm 1 +- 1e-8) (uniform on S^3, within 3e-4 rad of the identity densely "
-        "around both cut-offs, within 1e-6 of a half turn incl. real part exactly 0, the basis quaternions) and rotation vectors (norm in [0, pi), "
-        "around the cut-offs 1e-4 and 2 asin(1e-4), pi - 1e-6..pi, zero, (pi, 2 pi)); sum/difference round trips with the same flavours; "
-        "weighted means of 1..30 quaternions (clustered, all +-q, symmetric unscented sets, uniform), positive and unscented weights, random sign "
-        "flips and permutations, eigen-gap >= 1e-6; non-trivial = every case; distinct by (kind, batch, q flavour, r flavour / weight flavour)")
+                     "C18_mean_symmetric_centre_is_eigenvector", "C18_mean_symmetric_gap", "C18_mean_symmetric", "C18_mean_symmetric_partial",
+                     "C18_mean_matrix_negation_invariant", "C18_mean_matrix_permutation_invariant", "C18_mean_contract_fixes_rotation",
+                     "C18_mean_contract_needs_simplicity", "C18_mean_negation_invariant_rotation", "C18_mean_permutation_invariant_rotation",
+                     "C18_mean_all_equal_matrix", "C18_mean_all_equal_spectrum", "C18_mean_all_equal_simple", "C18_mean_all_equal_sum_one",
+                     "C18_mean_symmetric_gap_any_central_weight", "C18_mean_symmetric_simple", "C18_mean_symmetric_any_central_weight",
+                     "C18_sigma_set_layout", "C18_sigma_angle", "C18_mean_sigma_set", "C18_sigma_margin_sum_one",
+                     "C18_mean_symmetric_negative_weight_refuted"]
+RULE = ("cases from one seeded stream: conversions on batches of width 0, 1, 2, 3..6, 7..64 of unit quaternions (and, for correspondence only, quaternions of norm "
+        "1 +- 1e-12..1e-3, marked outside the property and counted) (uniform on S^3, within 3e-4 rad of the identity densely around both cut-offs at relative distances "
+        "1e-16..1e-1.5, within 1e-6 of a half turn incl. real part exactly 0, real part +-1e-17..1e-1 at the hemisphere boundary, the basis quaternions) and rotation "
+        "vectors (norm in [0, pi): around the cut-offs 1e-4 and 2 asin(1e-4), pi - 1e-15..1e-2, the largest double below pi, 1e-300..1e-5, zero; and (pi, 2 pi)); "
+        "sum/difference round trips with the same flavours; weighted means of 1..201 quaternions (clustered, all +-q, symmetric sets on both sides of the premise "
+        "0 < w0 + 2 sum w_j cos|d_j| incl. parallel axes, uniform, two groups a half turn apart with eigen-gaps from 0 to 0.3), positive weights (ratios up to 1e6) and "
+        "unscented weights (alpha 1e-3..1, negative central weight), random sign flips and permutations; direction clauses compared when cond = sum|w| / eigen-gap <= 1e8 "
+        "(tolerance 1e-9 + 1e-13 cond), otherwise excluded and counted; unit norm and the eigen-solver contract on every mean case; "
+        "non-trivial = every case; distinct by (kind, batch, q flavour, r flavour / weight flavour)")
 TRUSTED_BASE = ["Coq 8.16.1 kernel (coqc); the four real-number axioms of Coq's Reals",
                 "Coq stdlib Reals (sqrt, cos, sin, acos, asin, PI)",
                 "extraction (ExtrOcamlBasic only) and ocaml/float_ops.ml (libm), ocaml/drv_C18.ml (incl. a Jacobi eigen-iteration as the eigen-solver oracle of the executable model), ocaml/caseio.ml",
-                "cpp/h_C18.cpp harness (every template instantiated with MatrixXd, Block and Ref<const MatrixXd> arguments, results required bit-identical); tolerance 1e-9 outside the cut-off zones, 2e-4 + 1e-9 inside, 1e-9 + 1e-13 * |M| / eigen-gap for means",
+                "cpp/h_C18.cpp harness (every template instantiated with MatrixXd, Block and Ref<const MatrixXd> arguments, results required bit-identical); tolerance 1e-9 outside the cut-off zones, 2e-4 + 1e-9 inside, 1e-9 + 1e-13 * (sum_i |w_i|) / eigen-gap for means (N / 20 times that for more than 20 inputs)",
                 "correspondence is sampled: agreement is established on the generated cases only",
                 "IEEE rounding is not modelled (theorems over R)"]
-ASSUMPTIONS = ["eigen-solver contract (premise of the mean theorems, checked on every mean case for Eigen::EigenSolver and for the driver's Jacobi iteration): "
+ASSUMPTIONS = ["eigen-solver contract (premise of the mean theorems, checked on every mean case for Eigen::SelfAdjointEigenSolver and for the driver's Jacobi iteration): "
                "returns a unit eigenvector of the largest eigenvalue of the symmetric matrix sum_i w_i q_i q_i^T",
                "Eigen::Quaternion product is the Hamilton product, conjugate() negates the vector part (checked through the model on every case)"]
 
-COUNTS = {"quick": 500, "thorough": 30000}
+COUNTS = {"quick": 1500, "thorough": 30000}
 PI = math.pi
 CUT = 1e-4
 ZONE = 2e-4 + 1e-9          # run-time bound inside the cut-off zone (the proved bound is 2 asin(1e-4) = 2e-4 + 3.4e-13)
-STATS = {"error_above_2e-4_within_true_bound": 0, "near_cutoff_skipped": 0, "half_turn_antipodal": 0, "contract_checks": 0, "small_gap_regenerated": 0}
+STATS = {"error_above_2e-4_within_true_bound": 0, "near_cutoff_skipped": 0, "half_turn_antipodal": 0, "contract_checks": 0,
+         "small_gap_excluded": 0,                 # mean cases with cond = sum|w| / eigen-gap above COND_MAX: direction clauses not compared (counted per case)
+         "symmetric_premise_holds": 0,            # symmetric sets inside the premise of C18_mean_symmetric_any_central_weight: centre demanded
+         "symmetric_outside_premise_dominant": 0, # outside it, centre numerically dominant: centre demanded (C18_mean_symmetric_partial)
+         "symmetric_outside_premise_not_dominant": 0,   # outside it, centre NOT dominant (C18_mean_symmetric_negative_weight_refuted): only contract / invariances
+         "offunit_outside_property": 0}
+COND_MAX = 1e8              # cond = sum_i |w_i| |q_i|^2 / eigen-gap above which the tolerance 1e-9 + 1e-13 * cond says too little about the direction
 
 
 # ------------------------------------------------------------------ numpy spec helpers (columns)
@@ -77,7 +93,9 @@ def gen_angle_near_cutoffs(rng):
     if ch < 0.3:
         return rng.uniform(0.0, 3e-4)
     base = 1e-4 if ch < 0.65 else 2.0 * math.asin(1e-4)
-    return base * (1.0 + rng.choice([-1, 1]) * 10 ** rng.uniform(-9, -1.5))
+    # relative distance to the threshold: mostly 1e-11.5 .. 1e-1.5 (decided, compared), sometimes within the 1e-12 band that is excluded and counted
+    e = rng.uniform(-16, -12) if rng.random() < 0.12 else rng.uniform(-11.5, -1.5)
+    return base * (1.0 + rng.choice([-1, 1]) * 10 ** e)
 
 
 def gen_quat(rng, flavour):
@@ -94,6 +112,11 @@ def gen_quat(rng, flavour):
             ang = PI - rng.uniform(0.0, 1e-6) if rng.random() < 0.7 else PI + rng.uniform(0.0, 1e-6)
             q = np.concatenate([[math.cos(ang / 2)], math.sin(ang / 2) * u])
         return q * rng.choice([1.0, -1.0])
+    if flavour == "w_boundary":
+        # the w = 0 boundary between the two hemispheres of the double cover: |w| over 16 orders of magnitude, both signs
+        w = rng.choice([1.0, -1.0]) * 10 ** rng.uniform(-17, -1)
+        q = np.concatenate([[w], math.sqrt(1.0 - w * w) * rand_unit(rng, 3)])
+        return q * rng.choice([1.0, -1.0])
     if flavour == "axis":
         q = np.zeros(4); q[rng.randint(0, 3)] = rng.choice([1.0, -1.0])
         return q
@@ -107,7 +130,11 @@ def gen_rv(rng, flavour):
     if flavour == "near_cutoff":
         return u * gen_angle_near_cutoffs(rng)
     if flavour == "near_pi":
-        return u * (PI - rng.uniform(1e-9, 1e-6))
+        if rng.random() < 0.1:
+            return u * math.nextafter(PI, 0.0)            # the largest double below pi
+        return u * (PI - 10 ** rng.uniform(-15, -2))
+    if flavour == "tiny":
+        return u * 10 ** rng.uniform(-300, -5)          # far below the cut-off (squares underflow at the low end)
     if flavour == "zero":
         return np.zeros(3)
     if flavour == "beyond_pi":
@@ -115,8 +142,8 @@ def gen_rv(rng, flavour):
     raise ValueError(flavour)
 
 
-QF = ["uniform", "uniform", "near_identity", "near_identity", "half_turn", "axis"]
-RF = ["uniform", "uniform", "near_cutoff", "near_cutoff", "near_pi", "zero", "beyond_pi"]
+QF = ["uniform", "uniform", "near_identity", "near_identity", "half_turn", "w_boundary", "w_boundary", "axis"]
+RF = ["uniform", "uniform", "near_cutoff", "near_cutoff", "near_cutoff", "near_pi", "near_pi", "tiny", "zero", "beyond_pi"]
 
 
 def stack(cols, rows):
@@ -124,12 +151,22 @@ def stack(cols, rows):
 
 
 def off_unit(rng, q):
-    """norm 1 +- 1e-8: outside the property (unit quaternions); compared with the model only."""
-    return q * (1.0 + rng.choice([-1.0, 1.0]) * rng.uniform(1e-9, 1e-8))
+    """norm 1 +- 1e-12 .. 1e-3: outside the property (unit quaternions); compared with the model only (marked offunit, counted)."""
+    return q * (1.0 + rng.choice([-1.0, 1.0]) * 10 ** rng.uniform(-12, -3))
 
 
 def width(rng):
-    return 0 if rng.random() < 0.06 else rng.randint(1, 6)
+    """batch widths: empty, 1, 2, small, wide"""
+    u = rng.random()
+    if u < 0.05:
+        return 0
+    if u < 0.25:
+        return 1
+    if u < 0.45:
+        return 2
+    if u < 0.88:
+        return rng.randint(3, 6)
+    return rng.randint(7, 64)
 
 
 def gen_conv(rng, k):
@@ -169,51 +206,111 @@ def unscented_weights(n, alpha, kappa):
     return w, n + lam
 
 
+def scale_to_target(ws, ms, T):
+    """t in [0, pi / max(ms)] with 2 sum_j ws_j (1 - cos(t ms_j)) = T (increasing in t on that range); the largest reachable value if T is above it."""
+    f = lambda t: 2.0 * sum(w * (1.0 - math.cos(t * m)) for w, m in zip(ws, ms))
+    hi = PI / max(ms) * (1.0 - 1e-9)
+    if f(hi) <= T:
+        return hi * 0.999
+    lo = 0.0
+    for _ in range(80):
+        mid = 0.5 * (lo + hi)
+        lo, hi = (mid, hi) if f(mid) < T else (lo, mid)
+    return 0.5 * (lo + hi)
+
+
+def mean_case(k, flavour, wkind, w, q, qc, rng, extra=None):
+    """meta of a mean case from its spectrum.  The accumulated matrix carries a rounding error of the order of eps * scale with
+    scale = sum_i |w_i| |q_i|^2 (NOT its norm: a negative central weight of an unscented set cancels against the others), and an eigenvector
+    moves by (matrix error) / gap: cond = scale / gap (times N / 20 for wide sets), and the tolerance of every direction clause is 1e-9 + 1e-13 * cond.
+    gap_ok = 0 marks the cases excluded from the direction clauses (counted in small_gap_excluded)."""
+    N = q.shape[1]
+    M = (q * w) @ q.T
+    ev, evec = np.linalg.eigh((M + M.T) / 2)
+    gap = float(ev[-1] - ev[-2]); scale = float(max(np.abs(ev).max(), np.sum(np.abs(w) * np.sum(q * q, axis=0)), 1e-300))
+    cond = scale / max(gap, 1e-300) * max(1.0, N / 20.0)
+    gap_ok = cond <= COND_MAX
+    dominant_is_centre = gap_ok and up_to_sign(evec[:, -1], qc) < 1e-6 + 1e-13 * cond
+    # premise of C18_mean_symmetric_any_central_weight / C18_mean_sigma_set: w0 + sum_{j >= 1} w_j (2 (q_j . qc)^2 - 1) > 0, pair weights > 0
+    margin = float(w[0] + sum(w[j] * (2.0 * float(q[:, j] @ qc) ** 2 - 1.0) for j in range(1, N))) if flavour == "symmetric" else 0.0
+    flips2 = np.array([rng.choice([1.0, -1.0]) for _ in range(N)])
+    perm = list(range(N)); rng.shuffle(perm)
+    meta = {"batch": N, "flavour": flavour, "weights": wkind, "cond": "%.3g" % cond, "scale": "%.3g" % scale,
+            "centre_dominant": int(dominant_is_centre), "gap_ok": int(gap_ok), "margin": "%.6g" % margin}
+    meta.update(extra or {})
+    c = caseio.Case(k, "mean", meta)
+    c.mat("w", w.reshape(-1, 1)).mat("q", q).mat("q2", q * flips2).mat("w3", w[perm].reshape(-1, 1)).mat("q3", q[:, perm])
+    c.mat("qc", qc.reshape(4, 1))
+    return c
+
+
 def gen_mean(rng, k):
-    for _ in range(500):
-        flavour = rng.choice(["cluster", "cluster", "all_equal", "symmetric", "uniform"])
-        wkind = rng.choice(["positive", "unscented"])
-        qc = gen_quat(rng, rng.choice(["uniform", "uniform", "half_turn", "axis"]))
-        large = rng.random() < 0.25
-        if flavour == "symmetric" or wkind == "unscented":
-            n = rng.randint(4, 14) if large else rng.randint(1, 3); N = 2 * n + 1
+    flavour = rng.choice(["cluster", "cluster", "all_equal", "symmetric", "symmetric", "uniform", "antipodal"])
+    wkind = rng.choice(["positive", "unscented"])
+    qc = gen_quat(rng, rng.choice(["uniform", "uniform", "half_turn", "w_boundary", "axis"]))
+    u = rng.random()
+    size = "wide" if u < 0.07 else "large" if u < 0.3 else "small"
+    if flavour == "antipodal":
+        wkind = "positive"
+    if flavour == "symmetric" or wkind == "unscented":
+        n = rng.randint(15, 100) if size == "wide" else rng.randint(4, 14) if size == "large" else rng.randint(1, 3); N = 2 * n + 1
+    else:
+        N = rng.randint(31, 200) if size == "wide" else rng.randint(7, 30) if size == "large" else rng.choice([1, 1, 2, 2, 3, 4, 5, 6])
+    if wkind == "positive":
+        # positive weights summing to one, ratios over several orders of magnitude in a third of the cases
+        if rng.random() < 0.33:
+            w = np.array([10 ** rng.uniform(-6, 0) for _ in range(N)])
         else:
-            N = rng.randint(7, 30) if large else rng.randint(1, 6)
-        if wkind == "positive":
-            w = np.array([rng.random() + 0.05 for _ in range(N)]); w /= w.sum()
-            if flavour == "symmetric":
-                w[n + 1:] = w[1:n + 1]; w /= w.sum()
-            cfac = 1.0
-        else:
-            alpha = rng.choice([1.0, 1.0, 0.5, 0.1, 1e-2, 1e-3]); kappa = rng.choice([0.0, 3.0 - n, 1.0])
-            w, cfac = unscented_weights(n, alpha, kappa)
-        if flavour == "cluster":
-            q = np.stack([qmul(qexp_exact(rand_unit(rng, 3) * rng.uniform(0, 0.5) * math.sqrt(min(cfac, 1.0))), qc) for _ in range(N)], axis=1)
-        elif flavour == "all_equal":
-            q = np.stack([qc for _ in range(N)], axis=1)
-        elif flavour == "symmetric":
-            ds = [rand_unit(rng, 3) * rng.uniform(0.01, 0.6) * math.sqrt(min(cfac, 3.0)) / math.sqrt(max(1.0, n / 3.0)) for _ in range(n)]
-            q = np.stack([qc] + [qmul(qexp_exact(d), qc) for d in ds] + [qmul(qexp_exact(-d), qc) for d in ds], axis=1)
-        else:
-            q = np.stack([gen_quat(rng, "uniform") for _ in range(N)], axis=1)
-        flips = np.array([rng.choice([1.0, -1.0]) for _ in range(N)])
-        q = q * flips                                   # q and -q are the same rotation
-        M = (q * w) @ q.T
-        ev, evec = np.linalg.eigh((M + M.T) / 2)
-        gap = ev[-1] - ev[-2]; scale = max(np.abs(ev).max(), 1e-300)
-        if gap < 1e-6 * max(1.0, scale):
-            STATS["small_gap_regenerated"] += 1
-            continue
-        cond = scale / gap
-        dominant_is_centre = up_to_sign(evec[:, -1], qc) < 1e-6
-        flips2 = np.array([rng.choice([1.0, -1.0]) for _ in range(N)])
-        perm = list(range(N)); rng.shuffle(perm)
-        c = caseio.Case(k, "mean", {"batch": N, "flavour": flavour, "weights": wkind, "cond": "%.3g" % cond, "scale": "%.3g" % scale,
-                                    "centre_dominant": int(dominant_is_centre)})
-        c.mat("w", w.reshape(-1, 1)).mat("q", q).mat("q2", q * flips2).mat("w3", w[perm].reshape(-1, 1)).mat("q3", q[:, perm])
-        c.mat("qc", qc.reshape(4, 1))
-        return c
-    raise RuntimeError("no mean case with an eigen-gap")
+            w = np.array([rng.random() + 0.05 for _ in range(N)])
+        if flavour == "symmetric":
+            w[n + 1:] = w[1:n + 1]
+        w /= w.sum()
+        cfac = 1.0
+    else:
+        alpha = rng.choice([1.0, 1.0, 0.5, 0.1, 1e-2, 1e-3]); kappa = rng.choice([0.0, 3.0 - n, 1.0])
+        w, cfac = unscented_weights(n, alpha, kappa)
+    extra = {}
+    if flavour == "cluster":
+        q = np.stack([qmul(qexp_exact(rand_unit(rng, 3) * rng.uniform(0, 0.5) * math.sqrt(min(cfac, 1.0))), qc) for _ in range(N)], axis=1)
+    elif flavour == "all_equal":
+        q = np.stack([qc for _ in range(N)], axis=1)
+    elif flavour == "symmetric":
+        # offsets +-d_j; their overall size is chosen through T = 2 sum_j w_j (1 - cos|d_j|): the premise of C18_mean_sigma_set is T < 1
+        # (weights summing to one); both sides of the boundary, and the boundary itself, are generated
+        ms = [rng.uniform(0.2, 1.0) for _ in range(n)]
+        ch = rng.random()
+        T = 10 ** rng.uniform(-8, -0.1) if ch < 0.55 else 1.0 + rng.choice([-1, 1]) * 10 ** rng.uniform(-9, -1) if ch < 0.8 else rng.uniform(1.05, 3.0)
+        t = scale_to_target(list(w[1:n + 1]), ms, T)
+        ds = [rand_unit(rng, 3) * (t * m) for m in ms]
+        if rng.random() < 0.15:
+            ds = [ds[0] / np.linalg.norm(ds[0]) * np.linalg.norm(d) * rng.choice([1.0, -1.0]) for d in ds]     # parallel axes: the premise is sharp
+        q = np.stack([qc] + [qmul(qexp_exact(d), qc) for d in ds] + [qmul(qexp_exact(-d), qc) for d in ds], axis=1)
+        extra["T"] = "%.6g" % T
+    elif flavour == "antipodal":
+        # two groups of inputs (almost) a half turn apart: as 4-vectors (almost) orthogonal, q1 . q2 = c; with (almost) equal group weights
+        # the two largest eigenvalues are W1 (1 +- ...) and the gap is of the order of max(|c|, |W1 - W2|): from far below the tolerance to well above
+        b = rand_unit(rng, 4); b -= (b @ qc) * qc; b /= np.linalg.norm(b); b -= (b @ qc) * qc; b /= np.linalg.norm(b)
+        c_ = 0.0 if rng.random() < 0.2 else rng.choice([1.0, -1.0]) * 10 ** rng.uniform(-16, -0.5)
+        q2 = c_ * qc + math.sqrt(1.0 - c_ * c_) * b
+        q2 /= np.linalg.norm(q2)
+        idx = [j % 2 for j in range(N)]; rng.shuffle(idx)
+        q = np.stack([q2 if i else qc for i in idx], axis=1)
+        if N >= 2:
+            dW = 0.0 if rng.random() < 0.4 else rng.choice([1.0, -1.0]) * 10 ** rng.uniform(-16, -1)
+            g1 = [j for j in range(N) if idx[j]]; g0 = [j for j in range(N) if not idx[j]]
+            if g1 and g0:
+                w = np.zeros(N)
+                w[g0] = (0.5 + dW / 2) / len(g0); w[g1] = (0.5 - dW / 2) / len(g1)
+        extra["dot"] = "%.3g" % c_
+    else:
+        q = np.stack([gen_quat(rng, "uniform") for _ in range(N)], axis=1)
+    if rng.random() < 0.06:
+        # non-unit inputs: outside the property; model comparison, matrix invariances and the eigen-solver contract only
+        q = np.stack([off_unit(rng, q[:, j]) for j in range(N)], axis=1)
+        extra["offunit"] = 1
+    flips = np.array([rng.choice([1.0, -1.0]) for _ in range(N)])
+    q = q * flips                                   # q and -q are the same rotation
+    return mean_case(k, flavour, wkind, w, q, qc, rng, extra)
 
 
 def corpus(k0):
@@ -227,10 +324,41 @@ def corpus(k0):
     c = caseio.Case(k0 + 1, "sumdiff", {"batch": 3, "qf": "axis", "rf": "uniform"})
     c.mat("q0", X.reshape(4, 1)).mat("r", np.array([[1.0, 0, 0], [0, 1.0, 0], [0, 0, 1.0]]).T).mat("ql", np.stack([Y, Z, -X], axis=1))
     out.append(c)
-    c = caseio.Case(k0 + 2, "mean", {"batch": 2, "flavour": "all_equal", "weights": "positive", "cond": "1", "scale": "1", "centre_dominant": 1})
+    c = caseio.Case(k0 + 2, "mean", {"batch": 2, "flavour": "all_equal", "weights": "positive", "cond": "1", "scale": "1", "centre_dominant": 1, "gap_ok": 1, "margin": "0"})
     c.mat("w", [[0.5], [0.5]]).mat("q", np.stack([X, -X], axis=1)).mat("q2", np.stack([-X, -X], axis=1)).mat("w3", [[0.5], [0.5]]).mat("q3", np.stack([-X, X], axis=1))
     c.mat("qc", X.reshape(4, 1))
     out.append(c)
+    # the witness of C18_mean_symmetric_negative_weight_refuted replayed on the library: unscented weights (-1, 1, 1) of n = 1, n + lambda = 1/2,
+    # offsets +-2 atan(3/4) around the identity; M = diag(7/25, 18/25, 0, 0): the mean must be +-i, NOT the centre
+    rng0 = __import__("random").Random(18)
+    c = mean_case(k0 + 3, "symmetric", "unscented", np.array([-1.0, 1.0, 1.0]),
+                  np.stack([I, np.array([0.8, 0.6, 0, 0]), np.array([0.8, -0.6, 0, 0])], axis=1), I, rng0, {"witness": "negative-weight-refuted"})
+    c.mat("expect", X.reshape(4, 1))
+    out.append(c)
+    # inside the premise with a negative central weight (the Example of Properties_C18.v): weights (-3, 2, 2), offsets (35/37, +-12/37, 0, 0)
+    c = mean_case(k0 + 4, "symmetric", "unscented", np.array([-3.0, 2.0, 2.0]),
+                  np.stack([I, np.array([35 / 37, 12 / 37, 0, 0]), np.array([35 / 37, -12 / 37, 0, 0])], axis=1), I, rng0, {"witness": "negative-weight-premise"})
+    out.append(c)
+    # the four basis quaternions with equal weights (C18_mean_contract_needs_simplicity): M = I / 4, every unit vector meets the contract
+    c = mean_case(k0 + 5, "uniform", "positive", np.full(4, 0.25), np.stack([I, X, Y, Z], axis=1), I, rng0, {"witness": "no-simple-top"})
+    out.append(c)
+    # exact tie, as in test_QuaternionUtils: weights (1/2, -1/2) on two equal quaternions give the zero matrix; SelfAdjointEigenSolver + first index
+    # attaining the maximum returns (1, 0, 0, 0), and so does the driver's oracle (outside the property: the weights do not sum to one)
+    h2 = math.sqrt(0.5)
+    c = mean_case(k0 + 6, "all_equal", "positive", np.array([0.5, -0.5]), np.stack([np.array([h2, h2, 0, 0])] * 2, axis=1), I, rng0, {"witness": "zero-matrix", "offunit": 1})
+    c.mat("expect", I.reshape(4, 1))
+    out.append(c)
+    # regression witnesses of the defect fixed by /repo commit "fix: mean_quaternion uses the self-adjoint eigen solver" (found by this check):
+    # two unit quaternions a half turn apart (orthogonal 4-vectors), weights 1/2, 1/2: the general EigenSolver returned the repeated eigenvalue 1/2
+    # as a complex pair 1/2 +- 2.3e-16 i and the real part of its complex eigenvector, of norm 0.459, was returned as the mean
+    qa = np.array([-0.28317365589936871, 0.77415786832255196, -0.40872377032994917, -0.39171055013381961])
+    qb = np.array([-0.80074488783379705, -0.41518357474905154, -0.39616912868540066, 0.17169812271335169])
+    out.append(mean_case(k0 + 7, "antipodal", "positive", np.array([0.5, 0.5]), np.stack([qa, qb], axis=1), qa, rng0, {"witness": "complex-pair"}))
+    # same class, weights 1/2 - 5.9e-14, 1/2 - 6.6e-15: the general solver did not converge (info() == NoConvergence, not looked at) and
+    # the uninitialised eigenvector storage (0, 0, 0, 0) was returned
+    qa = np.array([-0.098952333731529896, -0.64480923314834182, 0.44467533417206556, -0.61375348119150652])
+    qb = np.array([0.8799194445645675, 0.075387042981935326, -0.24609689699310094, -0.39936810353105334])
+    out.append(mean_case(k0 + 8, "antipodal", "positive", np.array([0.49999999999994088, 0.49999999999999339]), np.stack([qa, qb], axis=1), qa, rng0, {"witness": "no-convergence"}))
     return out
 
 
@@ -328,11 +456,14 @@ def compare(c, impl, model):
                 d.append("%s col %d: impl=%s model=%s" % (name, j, a[:, j], b[:, j]))
     else:
         tol = 1e-9 + 1e-13 * float(c.meta["cond"])
+        gap_ok = int(c.meta.get("gap_ok", 1))
+        if not gap_ok:
+            STATS["small_gap_excluded"] += 1      # two eigen-solvers may return any direction of the (numerically) degenerate top eigenspace
         for name in ("mean", "mean_neg", "mean_perm"):
             a, b = impl.get(name), model.get(name)
             if a is None or b is None or a.shape != b.shape:
                 d.append("%s missing or of different shape" % name); continue
-            if up_to_sign(a, b) > tol:
+            if (gap_ok or (c.has("expect") and name == "mean")) and up_to_sign(a, b) > (tol if gap_ok else 1e-9):
                 d.append("%s: impl=%s model=%s (up to sign, tol %.3g)" % (name, a.ravel(), b.ravel(), tol))
     return d
 
@@ -356,13 +487,21 @@ def oracle(c, impl, model):
         if impl.get("via_equal") != 1:
             v.append(("C18:conv:block-or-ref-arguments", "result differs when the arguments are Block expressions / Ref<const MatrixXd>"))
         if int(c.meta.get("offunit", 0)):
+            STATS["offunit_outside_property"] += 1
             return v            # non-unit quaternions: outside the property, correspondence only
         for j in range(r.shape[1]):
             n = float(np.linalg.norm(r[:, j]))
             if abs(np.linalg.norm(er[:, j]) - 1.0) > 1e-12:
                 v.append(("C18:exp:not-unit", "col %d: |exp r| = %r" % (j, float(np.linalg.norm(er[:, j])))))
             err = float(np.linalg.norm(ler[:, j] - r[:, j]))
-            if n <= PI - 1e-9:
+            if PI - 1e-12 < n <= PI + 1e-15:
+                # within rounding of the half turn the real part of exp r is 0 up to rounding: r and its antipode (the same rotation) are both admissible
+                anti = float(np.linalg.norm(ler[:, j] + r[:, j] * (2 * PI - n) / n))
+                if min(err, anti) > 1e-9:
+                    v.append(("C18:log-exp:not-inverse", "col %d (half turn): |log(exp r) - r| = %.3g for |r| = %.17g" % (j, err, n)))
+                elif err > 1e-9:
+                    STATS["half_turn_antipodal"] += 1
+            if n <= PI - 1e-12:
                 in_zone = n <= CUT * (1 + 1e-12) or math.sin(n / 2) <= CUT * (1 + 1e-12)
                 if in_zone and 2e-4 < err <= ZONE:
                     STATS["error_above_2e-4_within_true_bound"] += 1      # C18_bound_2e_4_refuted: 2e-4 < |r| <= 2 asin(1e-4)
@@ -406,6 +545,7 @@ def oracle(c, impl, model):
         if impl.get("via_equal") != 1:
             v.append(("C18:sumdiff:block-or-ref-arguments", "result differs when the arguments are Block expressions / Ref<const MatrixXd>"))
         if int(c.meta.get("offunit", 0)):
+            STATS["offunit_outside_property"] += 1
             return v            # non-unit quaternions: outside the property, correspondence only
         for j in range(r.shape[1]):
             n = float(np.linalg.norm(r[:, j]))
@@ -453,13 +593,24 @@ def oracle(c, impl, model):
         return [("C18:mean:shape", "mean is not 4 x 1")]
     m = m.ravel()
     cond, scale = float(c.meta["cond"]), float(c.meta["scale"])
+    gap_ok, offunit = int(c.meta.get("gap_ok", 1)), int(c.meta.get("offunit", 0))
     tol = 1e-9 + 1e-13 * cond
+    cls = "" if gap_ok else ":degenerate-top-eigenvalue"       # (numerically) repeated largest eigenvalue: inputs a half turn apart with equal weights
     if impl.get("via_equal") != 1:
         v.append(("C18:mean:block-or-ref-arguments", "result differs when the arguments are Block expressions / Ref<const MatrixXd>"))
-    if not np.all(np.isfinite(m)):
-        return [("C18:mean:not-finite", "%s" % m)]
-    if abs(np.linalg.norm(m) - 1.0) > 1e-9:
-        v.append(("C18:mean:not-unit", "|mean| = %r" % float(np.linalg.norm(m))))
+    for name in ("mean", "mean_neg", "mean_perm"):
+        x = impl.get(name)
+        if x is None:
+            continue
+        x = x.ravel()
+        if not np.all(np.isfinite(x)):
+            return v + [("C18:mean:not-finite" + cls, "%s = %s" % (name, x))]
+        # "the weighted quaternion mean is a unit quaternion": for every input, whatever the eigen-gap
+        if abs(np.linalg.norm(x) - 1.0) > 1e-9:
+            v.append(("C18:mean:not-unit" + cls, "|%s| = %r" % (name, float(np.linalg.norm(x)))))
+    if any(sig.startswith("C18:mean:not-unit") for sig, _ in v):
+        # a non-unit result is uninitialised / partial solver output: that it also differs between calls is the same failure
+        return [x for x in v if not x[0].endswith("concurrent-callers-interfere")]
     M = model.get("outer") if model is not None and model.has("outer") else (q * w) @ q.T
     # run-time check of the eigen-solver contract, on the implementation's result (and on the driver's Jacobi iteration)
     ev = np.linalg.eigvalsh((M + M.T) / 2)
@@ -468,18 +619,38 @@ def oracle(c, impl, model):
             continue
         STATS["contract_checks"] += 1
         lam = float(vec @ M @ vec)
-        if np.max(np.abs(M @ vec - lam * vec)) > 1e-9 * max(1.0, scale) * max(1.0, cond * 1e-4) or lam < ev[-1] - 1e-9 * max(1.0, scale):
+        if np.max(np.abs(M @ vec - lam * vec)) > 1e-9 * max(1.0, scale) * max(1.0, min(cond, 1e6) * 1e-4) or lam < ev[-1] - 1e-9 * max(1.0, scale):
             v.append(("C18:mean:eigen-contract:%s" % who, "not a unit eigenvector of the largest eigenvalue: residual %.3g, Rayleigh %.6g, lambda_max %.6g" % (float(np.max(np.abs(M @ vec - lam * vec))), lam, ev[-1])))
+    if offunit:
+        STATS["offunit_outside_property"] += 1
+    if c.has("expect") and up_to_sign(m, c.get("expect").ravel()) > (tol if gap_ok else 1e-9):
+        v.append(("C18:mean:witness", "mean %s, expected +-%s (%s)" % (m, c.get("expect").ravel(), c.meta.get("witness", ""))))
+    if not gap_ok:
+        return v            # the direction clauses need a simple largest eigenvalue (C18_mean_contract_fixes_rotation / _needs_simplicity); counted in compare
+    # negation / permutation: the matrix is the same (C18_mean_matrix_*_invariant, no unit-norm premise), the top eigenvalue is simple
     for name, sig in (("mean_neg", "negation-changes-mean"), ("mean_perm", "permutation-changes-mean")):
         x = impl.get(name)
         if x is not None and up_to_sign(x.ravel(), m) > tol:
             v.append(("C18:mean:%s" % sig, "%s vs %s" % (x.ravel(), m)))
+    if offunit:
+        return v            # non-unit inputs: outside the property
     qc = c.get("qc").ravel()
     if c.meta["flavour"] == "all_equal" and up_to_sign(m, qc) > tol:
         v.append(("C18:mean:all-equal", "mean %s for inputs +-%s" % (m, qc)))
-    # positive weights: dominance is a theorem (C18_mean_symmetric: offsets within a quarter turn); otherwise only when the centre is dominant
-    if c.meta["flavour"] == "symmetric" and (c.meta["weights"] == "positive" or int(c.meta["centre_dominant"]) == 1) and up_to_sign(m, qc) > tol:
-        v.append(("C18:mean:symmetric-centre", "mean %s for centre %s" % (m, qc)))
+    if c.meta["flavour"] == "symmetric":
+        margin = float(c.meta.get("margin", 0.0))
+        if np.all(w[1:] > 0) and margin > 1e-9 * max(1.0, scale):
+            # C18_mean_symmetric_any_central_weight / C18_mean_sigma_set: dominance is a theorem, whatever the sign of the central weight
+            STATS["symmetric_premise_holds"] += 1
+            demand = True
+        elif int(c.meta["centre_dominant"]) == 1:
+            STATS["symmetric_outside_premise_dominant"] += 1      # C18_mean_symmetric_partial: the eigen-gap premise holds numerically
+            demand = True
+        else:
+            STATS["symmetric_outside_premise_not_dominant"] += 1
+            demand = False
+        if demand and up_to_sign(m, qc) > tol:
+            v.append(("C18:mean:symmetric-centre", "mean %s for centre %s (margin %.3g)" % (m, qc, margin)))
     return v
 
 
@@ -500,13 +671,18 @@ def histogram(cases):
 LEVEL_TEXT = ("Proof: the model of quaternion_to_rotation_vector / rotation_vector_to_quaternion / sum / diff / mean (with the code's 1e-4 cut-offs and sign branch) "
               "is proved over Coq's reals: exp is unit; log(exp r) = r for 2 asin(1e-4) < |r| <= pi and off by at most 2 asin(1e-4) otherwise; exp(log q) = q for unit q "
               "with non-negative real part outside the cut-off (-q for negative real part); q and -q have the same logarithm (opposite half turns when the real part is 0) of norm <= pi; "
-              "diff(sum(q, r), q) = log(exp r); left convention pinned; the mean (eigen-solver as an oracle with its contract as premise) is invariant under sign flips and "
-              "permutations, is +-q for inputs +-q, and the centre of a symmetric set is an eigenvector, the mean being +- the centre for non-negative weights and offsets within a quarter turn (eigen-gap derived; premise otherwise). Tied to the code by running the "
-              "extracted model and the library on the same generated cases.")
+              "diff(sum(q, r), q) = log(exp r); left convention pinned. Mean (eigen-solver as an oracle with its contract as premise): the accumulated matrix is invariant under sign "
+              "flips and permutations, and two answers meeting the contract are the same rotation (+-v) whenever the largest eigenvalue is simple (premise shown necessary); inputs +-q with "
+              "positive total weight: matrix W q q^T, spectrum {W, 0}, W simple and q meets the contract (all derived), mean = +-q; symmetric sets qc, a_j qc, conj(a_j) qc with pair "
+              "weights > 0 and a central weight of ANY sign: under 2 sum w_j |vec a_j|^2 < w0 + 2 sum w_j Re(a_j)^2 (for the library's sigma-point layout: 0 < w0 + 2 sum w_j cos|d_j|) the "
+              "eigen-gap, simplicity and satisfiability of the contract are derived and the mean is +- the centre; without that premise the clause is refuted for an unscented weight set. "
+              "Tied to the code by running the extracted model and the library on the same generated cases.")
 LEVEL_NOTE = ("Trusted: Coq kernel + 4 real-number axioms, extraction + float driver (libm, Jacobi iteration as executable eigen-oracle), harness and tolerances; rounding not modelled. "
               "Run-time only (not theorems): that the value mean_quaternion returns is a unit vector and an eigenvector of the largest eigenvalue is the eigen-solver contract — "
-              "a premise of the mean theorems, checked on every generated mean case for Eigen::EigenSolver and for the driver's Jacobi iteration; behaviour on non-unit quaternions "
-              "(norm 1 +- 1e-8) is compared with the model only. "
-              "Partial: for a negative central weight (unscented sets) or offsets beyond a quarter turn, dominance of the centre of a symmetric set is a premise (C18_mean_symmetric_partial); "
-              "for non-negative weights it is derived (C18_mean_symmetric). "
-              "The proved cut-off error bound is 2 asin(1e-4) = 2e-4 + 3.4e-13, marginally above the property's 2e-4 (C18_bound_2e_4_refuted). The tie to the code is sampled.")
+              "a premise of the mean theorems, checked on every generated mean case for Eigen::SelfAdjointEigenSolver and for the driver's Jacobi iteration (that SOME vector meets the "
+              "contract is proved for inputs +-q and for symmetric sets inside the premise, not for arbitrary inputs: the spectral theorem for symmetric 4 x 4 matrices is not formalised); "
+              "behaviour on non-unit quaternions (norm 1 +- 1e-12..1e-3) is compared with the model only. "
+              "Partial: C18_mean_symmetric_partial — symmetric sets outside the explicit premise (the premise bounds the spectrum on the complement of the centre by its trace; it is sharp for "
+              "one pair or parallel axes, not for offsets in different directions): dominance of the centre is then a premise (eigen-gap), checked numerically per case. "
+              "Refuted as stated: the cut-off error bound 2e-4 (true bound 2 asin(1e-4) = 2e-4 + 3.4e-13, C18_bound_2e_4_refuted) and 'equals the common centre' for unscented sets with a "
+              "negative central weight and wide offsets (C18_mean_symmetric_negative_weight_refuted, replayed on the library as a corpus case). The tie to the code is sampled.")
